@@ -12,7 +12,11 @@ fn nontrivial(v: &Verdict) -> bool {
 }
 
 pub fn exec(line: &str, rec: &mut Recorder) {
-    encscript::exec(line, rec, nontrivial)
+    if line.starts_with("msg ") || line.starts_with("rt ") || line.starts_with("asm ") || line.starts_with("resp ") {
+        crate::props::msgemit::exec(line, rec, |v| v.n_err == 0 && v.len > 40)
+    } else {
+        encscript::exec(line, rec, nontrivial)
+    }
 }
 
 use crate::props::encscript;
@@ -242,7 +246,7 @@ fn built_in() -> Vec<String> {
 }
 
 pub fn run(o: &Opts, rec: &mut Recorder) {
-    rec.rule = "encoder scripts from a seeded structured generator: 2-170 names per script built from a small family of base domains and prefix labels (shared suffixes, exact repeats, mixed case, a label unique to the script to force new candidates, root, relative names), modes Compressed/Uncompressed/UncompressedLowercase/with_rdata_behavior x canonical_form, record-shaped groups with RDLENGTH place/back-patch, > 64 candidates, > 120 compressed names, a filler moving the offset across 0x3FFF, names of 240-255 octets, one script in ten under a limit of 0-89 octets; a case is non-trivial when at least one name was written with a compression pointer and at least two names were round-trip checked; distinct by case line".into();
+    rec.rule = "encoder scripts from a seeded structured generator: 2-170 names per script built from a small family of base domains and prefix labels (shared suffixes, exact repeats, mixed case, a label unique to the script to force new candidates, root, relative names), modes Compressed/Uncompressed/UncompressedLowercase/with_rdata_behavior x canonical_form, record-shaped groups with RDLENGTH place/back-patch, > 64 candidates, > 120 compressed names, a filler moving the offset across 0x3FFF, names of 240-255 octets, one script in ten under a limit of 0-89 octets; a case is non-trivial when at least one name was written with a compression pointer and at least two names were round-trip checked; distinct by case line.  Stage 2: assembled messages of the modelled RDATA types (asm: decode-after-encode equals the assembled value; rt: from_vec/to_vec/from_vec), messages of every RDATA variant from the C01 generator and their mutations (rt); a message case is non-trivial when it round-trips and is longer than 40 octets".into();
     for l in o.pre_lines.clone() {
         exec(&l, rec);
     }
@@ -259,4 +263,67 @@ pub fn run(o: &Opts, rec: &mut Recorder) {
         let line = if i % 10 == 9 { gen_long_script(&mut r) } else { gen_script(&mut r) };
         exec(&line, rec);
     }
+    // ---------------- stage 2: whole messages
+    for l in built_in_messages() {
+        exec(&l, rec);
+    }
+    use crate::props::c01;
+    use crate::props::msgemit::{fnv1a, gen_message_tier};
+    let mut r = Rng::new(o.seed ^ 0x00C0_2B00);
+    let n = o.n(600, 30_000);
+    for i in 0..n {
+        match i % 6 {
+            // an assembled message of modelled types: must decode, after encoding, to itself; and the
+            // decoded message must survive a second trip (model-compared)
+            0 | 1 | 2 => {
+                let Some(m) = gen_message_tier(&mut r, rec, i % 60 == 0) else { continue };
+                let Ok(bytes) = m.to_vec() else {
+                    rec.stat("gen.emit-failed");
+                    continue;
+                };
+                let h = hex(&bytes);
+                let want = crate::props::msgemit::asm_dump(&m);
+                if std::env::var("HK_DEBUG").is_ok() {
+                    eprintln!("ASM {} {}", fnv1a(want.as_bytes()), want);
+                }
+                exec(&format!("asm {h} {}", fnv1a(want.as_bytes())), rec);
+                exec(&format!("rt {h}"), rec);
+            }
+            // every RDATA variant hickory knows (DNSSEC types, SVCB, CAA, …; implementation-only when
+            // a record has no modelled emitter)
+            3 | 4 => {
+                let bytes = c01::gen_message(&mut r, rec, false, false);
+                exec(&format!("rt {}", hex(&bytes)), rec);
+            }
+            // "decode what the C01 generator produced and re-encode": mutated encodings
+            _ => {
+                let mut bytes = c01::gen_message(&mut r, rec, i % 12 == 5, false);
+                for _ in 0..r.range(1, 3) {
+                    c01::mutate(&mut r, &mut bytes);
+                }
+                exec(&format!("rt {}", hex(&bytes)), rec);
+            }
+        }
+    }
+}
+
+/// deterministic message-level cases
+fn built_in_messages() -> Vec<String> {
+    use crate::props::msgemit::{asm_dump, fnv1a};
+    use hickory_proto::op::{Edns, Message, MessageType, OpCode, Query, ResponseCode};
+    use hickory_proto::rr::{Name, RecordType};
+    let mut v = vec![];
+    // controls for KNOWN FINDING C02-F1 (corpus/C02/finding-badvers-alias.case: BADVERS comes back as
+    // BADSIG): the other extended codes around 16 round-trip
+    for rc in [ResponseCode::BADSIG, ResponseCode::BADKEY, ResponseCode::BADTIME, ResponseCode::BADCOOKIE] {
+        let mut m = Message::new(7, MessageType::Response, OpCode::Query);
+        m.add_query(Query::new(Name::from_ascii("example.").unwrap(), RecordType::A));
+        m.metadata.response_code = rc;
+        let mut e = Edns::new();
+        e.set_rcode_high(rc.high());
+        m.set_edns(e);
+        let bytes = m.to_vec().unwrap();
+        v.push(format!("asm {} {}", hex(&bytes), fnv1a(asm_dump(&m).as_bytes())));
+    }
+    v
 }
